@@ -577,6 +577,9 @@ def call_contract(I, c, f, args, kwargs):
         # a pure callee used inside a specification / comprehension: its result expression
         return I.eval_spec_value(c.pure_result, env)
     I.ver.apply_param_types(I, c, env)
+    if not getattr(c, "modifies_declared", True):
+        I.ver.note_assumption("modular call of %s whose contract declares no `modifies`: assumed to change nothing "
+                              "(declare modifies=[...] to have the frame verified)" % c.short)
     caller = I.cur_obl_prefix()
     for nm, src in c.requires:
         I.path.prove(I.eval_spec(src, env), "%s/call:%s/pre:%s" % (caller, c.short, nm), "call-pre", where=src)
